@@ -80,7 +80,7 @@ def build_lib(variant="plain"):
     """Build libCSD.a + libcds.a from /repo's working tree through the repository's own
     CMakeLists with the variant's flags injected.  Cached by source hash."""
     h = hashlib.sha1((src_hash() + VARIANTS[variant]).encode()).hexdigest()[:16]
-    bdir = os.path.join(CACHE, "build", "%s-%s" % (variant, h))
+    bdir = os.path.join(CACHE, "build" + os.environ.get("VERIF_RUN_TAG", ""), "%s-%s" % (variant, h))
     with _Lock("build-" + variant):
         if os.path.exists(os.path.join(bdir, ".done")):
             return bdir
@@ -103,7 +103,7 @@ def build_lib(variant="plain"):
 
 def build_harness(name, sources, variant="plain", extra=None, link_lib=True):
     """Compile a harness executable against the variant's library build."""
-    bdir = build_lib(variant) if link_lib else os.path.join(CACHE, "build", "nolib")
+    bdir = build_lib(variant) if link_lib else os.path.join(CACHE, "build" + os.environ.get("VERIF_RUN_TAG", ""), "nolib")
     os.makedirs(bdir, exist_ok=True)
     hh = hashlib.sha1()
     srcs = [os.path.join(ROOT, s) for s in sources]
